@@ -110,6 +110,8 @@ type State struct {
 	BondDenom     int
 	Unbonding     int64
 	SVals         []SValS
+	// not part of the trace line: tokens of ALL bonded validators of the chain (x/staking's pool invariant)
+	BondedTokensAll *big.Int
 }
 
 func (s *State) Asset(d int) *AssetS {
@@ -426,6 +428,14 @@ func (e *Env) Snapshot() *State {
 			sv.ModShares = d.Shares.BigInt()
 		}
 		s.SVals = append(s.SVals, sv)
+	}
+	s.BondedTokensAll = new(big.Int)
+	if all, err := sk.GetAllValidators(ctx); err == nil {
+		for _, v := range all {
+			if v.IsBonded() {
+				s.BondedTokensAll.Add(s.BondedTokensAll, v.Tokens.BigInt())
+			}
+		}
 	}
 	// reported balances, through the same function the queries use
 	for i := range s.Dels {
